@@ -11,13 +11,15 @@ def plan(tier):
                 "cfg": "SuffixIndexMC_C03s.cfg" if q else "SuffixIndexMC_C03s_thorough.cfg",
                 "timeout": 3000, "args": ["-coverage", "1"]}],
         "families": [{"fam": "sa", "trace": "SuffixIndexTraceSa", "nfiles": 3 if q else 4, "timeout": 3000}],
-        "required_obligations": ["exhaustive_small", "exhaustive_binary_12", "lms_substring_longer_than_lms_count", "more_than_65536_distinct_lms_names", "width_boundary_sweep_250_262", "more_than_65535_sentinels", "text_longer_than_2p24_sampled", "recursion_smallest_witness", "single_lms", "random_multi_sentinel", "random_long", "transform_u16",
+        "required_obligations": ["exhaustive_small", "resample_multiple_rate", "resample_non_multiple_rate", "resample_multiple_rate_multi_sentinel", "serde_roundtrip_sampled_sa", "serde_roundtrip_sampled_sa_multi_sentinel", "exhaustive_binary_12", "lms_substring_longer_than_lms_count", "more_than_65536_distinct_lms_names", "width_boundary_sweep_250_262", "more_than_65535_sentinels", "text_longer_than_2p24_sampled", "recursion_smallest_witness", "single_lms", "random_multi_sentinel", "random_long", "transform_u16",
                                  "transform_u8_limit_255", "transform_u16_limit_256", "int_alphabet_gt_255", "int_u8",
                                  "sample_multi_sentinel", "sample_rate_gt_n", "sample_rate_eq_n", "sample_occ_rate_gt64",
                                  "lcp_plant_126", "lcp_plant_127", "lcp_plant_128", "lcp_plant_200"]
                                 + ["repetitive_" + r for r in REPS] + ([] if q else ["width_boundary_65538", "long_random_bytes_300k"]),
         "rule": "one run = one text: suffix_array (or suffix_array_int), lcp, shortest_unique_substrings, and one "
-                "`sample` event per (s, Occ rate, ownership) carrying every get(i); exhaustive over {A,C}*$ (n<=9 quick / 11 thorough with lcp/sus/sampling; suffix_array alone up to "
+                "`sample` event per (s, Occ rate, ownership) carrying every get(i) -- also for arrays obtained by "
+                "re-sampling a sampled array (rate pairs with multiple and non-multiple rates) and after a serde "
+                "round trip of the sampled array and its components; exhaustive over {A,C}*$ (n<=9 quick / 11 thorough with lcp/sus/sampling; suffix_array alone up to "
                 "n=13 / 14) and "
                 "{A,C,$}*$ with <=3 sentinels (n<=7 / 8), random DNA/protein/byte texts up to 2000 (multi-sentinel too), "
                 "repetitive texts up to 300 (unary, periodic, Fibonacci, Thue-Morse, (ab)^k a, runs, squares), "
